@@ -37,7 +37,7 @@ DECIDING = ["sub_symbols", "get_free_symbols", "custom-factory", "MatrixFactoryG
             "ResetOperation.bind", "Circuit.bind", "MatrixFactoryGate.replace_params", "ControlledGate.replace_params",
             "Dagger.replace_params", "GateOperation.replace_params", "MultiPhaseOperation.replace_params",
             "ResetOperation.replace_params", "gate.free_symbols", "operation.free_symbols", "Circuit.free_symbols",
-            "two-step", "circuit-unitary", "absent-untouched"]
+            "two-step", "circuit-unitary", "absent-untouched", "rebind"]
 BUDGET = {"quick": (4, 22, 900), "thorough": (16, 200, 100000)}
 CASE_TIMEOUT = {"quick": 15, "thorough": 30}
 
@@ -45,7 +45,7 @@ _G = _C = _O = _W = None
 
 
 def classes(tier):
-    return ["gate", "wrapped", "custom", "nongate", "circuit", "chained", "twostep", "refuse"]
+    return ["gate", "wrapped", "custom", "nongate", "circuit", "siblings", "chained", "twostep", "rebind", "refuse"]
 
 
 # ============================================================================ oracle helpers
@@ -1049,8 +1049,20 @@ def check_circuit_unitary(ctx, c, m, bound):
         E = _ref_unitary(c, assign, smap)
         B = _ref_unitary(bound, assign)
     d = L.maxdiff(E, B)
-    ctx.check("circuit-unitary", d <= 1e-9, lambda: f"{describe_circuit(c)} bound with {describe_map(m)}: circuit matrix "
-              f"after binding differs by {d:.3g} from the symbolic matrix with the map applied (at {assign})")
+    scale = 1.0
+    if not d <= 1e-9:
+        # custom gates need not be unitary: the rounding error of a product of matrices grows with the product of
+        # their norms, so the tolerance is relative to that product (1 for a circuit of unitary gates)
+        try:
+            for op in bound.operations:
+                scale *= max(1.0, float(np.linalg.norm(_gate_np(op.gate, assign), 2)))
+        except Exception:
+            scale = 1.0
+        if scale > 1.0 + 1e-6:
+            ctx.mon.note("circuit-unitary: tolerance scaled by the product of the gate norms (non-unitary custom gates)")
+    ctx.check("circuit-unitary", d <= 1e-9 * scale, lambda: f"{describe_circuit(c)} bound with {describe_map(m)}: circuit "
+              f"matrix after binding differs by {d:.3g} (tolerance 1e-9 x {scale:.3g}) from the symbolic matrix with the "
+              f"map applied (at {assign})")
 
 
 def _same_ops(c1, c2, rng):
@@ -1085,6 +1097,159 @@ def _bind(obj, m, expect_refusal=False):
         return None
     except Exception:
         return None  # recorded by the hook on the raising method
+
+
+def _snapshot(c):
+    """what the circuit consists of when it is built (operations are immutable; the list is copied)"""
+    return [(op, type(op), tuple(op.qubit_indices), tuple(_op_params(op))) for op in c.operations]
+
+
+def _against_snapshot(snap, n_qubits, bound, m, rng):
+    """None when ``bound`` is the snapshotted circuit with the map substituted (own substitution), else text"""
+    if bound.n_qubits != n_qubits or len(bound.operations) != len(snap):
+        return f"{len(snap)} operations on {n_qubits} qubits became {len(bound.operations)} on {bound.n_qubits}"
+    for i, ((op, typ, qs, params), b) in enumerate(zip(snap, bound.operations)):
+        if type(b) is not typ or tuple(b.qubit_indices) != qs:
+            return f"operation {i}: {describe_op(op)} -> {describe_op(b)}"
+        if isinstance(op, _G.GateOperation):
+            why = gate_identity_mismatch(op.gate, b.gate)
+            if why:
+                return f"operation {i}: {describe_op(op)} -> {describe_op(b)}: {why}"
+        why = _judge_params(_expected_params(params, m), tuple(_op_params(b)), rng)
+        if why:
+            return f"operation {i}: {describe_op(op)} -> {describe_op(b)}: {why}"
+    return None
+
+
+def run_rebind(ctx, symbols):
+    """history class: the SAME objects are bound several times - other values under the same keys, the first map
+    again, the same values as other numeric types, one dict object changed in place between two calls - then their
+    gates are shared with a second circuit and the circuit is extended.  Every call is judged by the monitors against
+    the object as it is at the call; the driver judges every result against the parameters the object was built with."""
+    from orquestra.quantum.circuits import Circuit
+
+    rng = ctx.rng
+    sib = rng.random() < 0.5
+    if sib:
+        c, tally = sibling_circuit(rng, symbols, max_ops=4)
+    else:
+        c, tally = plain_circuit(rng, symbols, max_ops=4), []
+    snap, n_qubits, text = _snapshot(c), c.n_qubits, describe_circuit(c)
+    used = set()
+    for _, _, _, params in snap:
+        for p in params:
+            used |= _atoms(p)
+    fresh = [sympy.Symbol(n) for n in FRESH]
+    steps = ["other-values", "again", "twin-values", "dict-changed-in-place", "shared-gates", "extended"]
+    steps = [s for s in steps if rng.random() < 0.6] or ["other-values"]
+    m1, mk = rand_map(rng, used, rng.choice(["total", "total", "partial", "superfluous", "partial_extra"]),
+                      values=rng.choice([None, None, "float", "int", "snum"]))
+    if "twin-values" in steps and rng.random() < 0.7:
+        # values that have twins under == AND hash: 2 == 2.0 == Integer(2)
+        m1 = {k: rng.choice([int, float, sympy.Integer])(rng.randint(-5, 5)) for k in m1}
+    m2 = {k: rand_value(rng, fresh) for k in m1}
+    m1t = {k: SB.twin_value(rng, v) for k, v in m1.items()}
+    gate_ops = [op for op in c.operations if isinstance(op, _G.GateOperation)]
+    target = rng.choice(["circuit", "circuit", "circuit", "operation", "gate"]) if gate_ops else "circuit"
+    ctx.describe(f"rebind[{target}{'; siblings' if sib else ''}]: {text} bind[{mk}] {describe_map(m1)}, then "
+                 f"{', '.join(steps)} (other values {describe_map(m2)}; twin values {describe_map(m1t)})",
+                 bool(set(m1) & used) and len(steps) > 0)
+    for t in tally:
+        ctx.mon.note(f"siblings: different gates with {t}")
+    for s in steps:
+        ctx.mon.note(f"rebind step: {s}")
+
+    if target != "circuit":
+        op = rng.choice(gate_ops)
+        obj = op if target == "operation" else op.gate
+        g = op.gate
+        base_params = tuple(_chain(g)[1].params)
+        g_text = describe_gate(g)
+
+        def judge(res, m, label):
+            if res is None:
+                return
+            rg = res.gate if target == "operation" else res
+            why = gate_identity_mismatch(g, rg) or _judge_params(_expected_params(base_params, m),
+                                                                tuple(_chain(rg)[1].params), _rng_for(text, label))
+            ctx.check("rebind", why is None, lambda: f"{describe_gate(g)} bound with {describe_map(m)} ({label}, after "
+                      f"earlier binds of the same object): {describe_gate(rg)}: {why}")
+
+        judge(_bind(obj, m1), m1, "first")
+        for s in steps:
+            if s == "other-values":
+                judge(_bind(obj, m2), m2, s)
+            elif s == "again":
+                judge(_bind(obj, dict(m1)), m1, s)
+            elif s == "twin-values":
+                judge(_bind(obj, m1t), m1t, s)
+            elif s == "dict-changed-in-place":
+                md = dict(m1)
+                judge(_bind(obj, md), dict(md), s + " (before)")
+                md.update(m2)
+                judge(_bind(obj, md), dict(md), s + " (after)")
+            else:  # a sibling of the gate (same innermost parameters, other wrappers) bound right after it
+                inner = _chain(g)[1]
+                w = rng.choice([w for w in SB.WRAPPERS if inner.num_qubits + SB._EXTRA[w] <= 4])
+                g2 = SB.apply_wrapper(inner, w)
+                r2 = _bind(g2, m2)
+                if r2 is not None:
+                    why = gate_identity_mismatch(g2, r2) or _judge_params(
+                        _expected_params(base_params, m2), tuple(_chain(r2)[1].params), _rng_for(text, s, w))
+                    ctx.check("rebind", why is None, lambda: f"{describe_gate(g2)} bound with {describe_map(m2)} after "
+                              f"binding its sibling {describe_gate(g)}: {describe_gate(r2)}: {why}")
+        ctx.check("rebind", describe_gate(g) == g_text and all(x is y for x, y in zip(_chain(g)[1].params, base_params)),
+                  lambda: f"the gate changed under binding: {g_text} -> {describe_gate(g)}")
+        return
+
+    def judge(res, m, label, sn=snap, nq=n_qubits, txt=text):
+        if res is None:
+            return
+        why = _against_snapshot(sn, nq, res, m, _rng_for(txt, label))
+        ctx.check("rebind", why is None, lambda: f"{txt} bound with {describe_map(m)} ({label}, after earlier binds of "
+                  f"the same circuit) gives {describe_circuit(res)}: {why}")
+
+    fs0 = list(c.free_symbols)
+    first = _bind(c, m1)
+    judge(first, m1, "first")
+    for s in steps:
+        if s == "other-values":
+            judge(_bind(c, m2), m2, s)
+        elif s == "again":
+            again = _bind(c, dict(m1))
+            judge(again, m1, s)
+            if first is not None and again is not None:
+                why = _same_ops(first, again, rng)
+                ctx.check("rebind", why is None, lambda: f"{text}: binding {describe_map(m1)} a second time gives "
+                          f"{describe_circuit(again)}, the first time {describe_circuit(first)}: {why}")
+        elif s == "twin-values":
+            judge(_bind(c, m1t), m1t, s)
+        elif s == "dict-changed-in-place":
+            md = dict(m1)
+            judge(_bind(c, md), dict(md), s + " (before)")
+            md.update(m2)
+            judge(_bind(c, md), dict(md), s + " (after)")
+        elif s == "shared-gates" and gate_ops:
+            # the same gate objects on other qubits of another circuit, bound with the other values
+            w2 = max(op.gate.num_qubits for op in gate_ops) + rng.randint(0, 1)
+            ops2 = [op.gate(*GC.rand_qubits(rng, op.gate.num_qubits, w2)) for op in reversed(gate_ops)]
+            c2 = Circuit(ops2, n_qubits=w2 + rng.randint(0, 1))
+            judge(_bind(c2, m2), m2, s, _snapshot(c2), c2.n_qubits, describe_circuit(c2))
+        elif s == "extended" and gate_ops:
+            # a longer circuit that starts with the same operations and ends with a sibling of one of them
+            inner = _chain(rng.choice(gate_ops).gate)[1]
+            fit = [w for w in SB.WRAPPERS if inner.num_qubits + SB._EXTRA[w] <= max(n_qubits, inner.num_qubits)]
+            g3 = SB.apply_wrapper(inner, rng.choice(fit))
+            c3 = c + g3(*GC.rand_qubits(rng, g3.num_qubits, max(n_qubits, g3.num_qubits)))
+            list(c3.free_symbols)
+            judge(_bind(c3, m1), m1, s, _snapshot(c3), c3.n_qubits, describe_circuit(c3))
+    # the circuit itself is what it was
+    now = _snapshot(c)
+    same = c.n_qubits == n_qubits and len(now) == len(snap) and all(
+        a[0] is b[0] or (a[1] is b[1] and a[2] == b[2] and describe_op(a[0]) == describe_op(b[0])) for a, b in zip(snap, now))
+    ctx.check("rebind", same and describe_circuit(c) == text and list(c.free_symbols) == fs0,
+              lambda: f"the circuit changed under binding: {text} -> {describe_circuit(c)}, free symbols {fs0} -> "
+              f"{list(c.free_symbols)}")
 
 
 def run_case(ctx):
